@@ -122,6 +122,23 @@ func validObjectKey(key string) bool {
 	return true
 }
 
+// holdsObject reports whether there is a file somewhere below dir. Directories
+// exist only as a by-product of keys: one that holds no file (a process killed
+// between creating the directories of a key and the file, or between removing
+// the file and its directories) stands for no key and is no common prefix.
+func holdsObject(fs afero.Fs, dir string) bool {
+	entries, err := afero.ReadDir(fs, dir)
+	if err != nil {
+		return false
+	}
+	for _, entry := range entries {
+		if !entry.IsDir() || holdsObject(fs, filepath.Join(dir, entry.Name())) {
+			return true
+		}
+	}
+	return false
+}
+
 // removeAll removes name and everything below it, like Fs.RemoveAll. It does
 // not call Fs.RemoveAll because afero.MemMapFs (v1.2.1) treats the argument as
 // a plain string prefix there: removing the bucket "logs" would take the
